@@ -322,6 +322,43 @@ namespace tc {
         fixbw_bases<D>(std::make_integer_sequence<int, 35>{});
     }
 
+    // operator<< of multi-word wide_integer<D, int> (the vendored inserter with its own decimal buffer estimate): the
+    // values with the most characters of every digit count in a range
+    template<int D>
+    void oss_one()
+    {
+        using W = cnl::wide_integer<D, int>;
+        W const mx = std::numeric_limits<W>::max();
+        W const vs[] = {mx, W(-mx), std::numeric_limits<W>::lowest()};
+        char const* names[] = {"max", "-max", "lowest"};
+        for (int k = 0; k < 3; ++k) {
+            printf("%s oss %d %s => ", table, D, names[k]);
+            int rc = sigsetjmp(jb, 1);
+            if (rc == 0) {
+                arm(1500);
+                vh::armed = 1;
+                std::ostringstream os;
+                os << vs[k];
+                std::string const o = os.str();
+                vh::armed = 0;
+                arm(0);
+                enc(o.data(), o.size());
+                putchar('\n');
+            } else
+                failed(rc);
+        }
+    }
+    template<int Lo, int... Is>
+    void oss_seq(std::integer_sequence<int, Is...>)
+    {
+        (oss_one<Lo + Is>(), ...);
+    }
+    template<int Lo, int N>
+    void oss_range()
+    {
+        oss_seq<Lo>(std::make_integer_sequence<int, N>{});
+    }
+
     template<class T, class V>
     void fix_sweep(std::vector<V> const& values)
     {
